@@ -8,9 +8,11 @@ import (
 
 	"github.com/ipfs/go-cid"
 	"github.com/ipni/go-libipni/announce"
+	"github.com/ipni/go-libipni/announce/gossiptopic"
 	"github.com/ipni/go-libipni/announce/message"
 	"github.com/ipni/go-libipni/announce/p2psender"
 	"github.com/libp2p/go-libp2p"
+	pubsub "github.com/libp2p/go-libp2p-pubsub"
 	"github.com/libp2p/go-libp2p/core/host"
 	"github.com/libp2p/go-libp2p/core/peer"
 	"github.com/multiformats/go-multiaddr"
@@ -30,6 +32,7 @@ const (
 type psEnv struct {
 	hP, hR, hB host.Host
 	sender     *p2psender.Sender
+	topicP     *pubsub.Topic
 	R, B       *announce.Receiver
 	peerNo     map[peer.ID]int
 	allowB     map[int]bool // nil = all
@@ -49,6 +52,17 @@ func newHostC09() host.Host {
 }
 
 func coqAddrs(as []int) string {
+	if len(as) > 64 {
+		same := true
+		for _, a := range as {
+			if a != as[0] {
+				same = false
+			}
+		}
+		if same && as[0] >= 0 {
+			return fmt.Sprintf("(nrep %d (%d, %s))", len(as), as[0], vlib.CoqBool(recvdrv.AddrTable[as[0]].Public))
+		}
+	}
 	it := make([]string, len(as))
 	for i, a := range as {
 		pub := a >= 0 && a < len(recvdrv.AddrTable) && recvdrv.AddrTable[a].Public
@@ -123,6 +137,7 @@ func (c *ctx) pubsubCases() {
 		}
 	}()
 	c.Family("pubsub", []string{reqPub}, "pubsub_case_ok", 4)
+	c.Family("wire", []string{"From Lib Require Import Cid Cbor.", "From Model Require Import C10_AnnounceMsg C09_Pubsub Compose_C10_C09."}, "wire_case_ok", 1)
 	r := c.Rng.Fork("pubsub")
 	rounds := c.Pick(2, 12)
 	for round := 0; round < rounds; round++ {
@@ -154,11 +169,17 @@ func (c *ctx) pubsubRound(r *vlib.Rand, round int) {
 		e.allowB = nil
 	}
 	var err error
-	e.sender, err = p2psender.New(e.hP, topic)
+	// P owns its topic handle so that raw payloads can be published next to p2psender's
+	tP, cancelP, err := gossiptopic.MakeTopic(e.hP, topic)
 	if err != nil {
 		panic(err)
 	}
-	defer e.sender.Close()
+	defer cancelP()
+	e.topicP = tP
+	e.sender, err = p2psender.New(nil, "", p2psender.WithTopic(tP))
+	if err != nil {
+		panic(err)
+	}
 	e.R, err = announce.NewReceiver(e.hR, topic, announce.WithResend(true), announce.WithFilterIPs(e.filterR))
 	if err != nil {
 		panic(err)
@@ -373,6 +394,17 @@ func (c *ctx) pubsubRound(r *vlib.Rand, round int) {
 	}
 	_ = usedMsgs
 
+	cfgB := fmt.Sprintf("{| cap := 64%%nat; filter_ips := %s |}", vlib.CoqBool(e.filterB))
+	cfgR := fmt.Sprintf("{| cap := 64%%nat; filter_ips := %s |}", vlib.CoqBool(e.filterR))
+	fB := "AllowAll"
+	if e.allowB != nil {
+		fB = "(AllowSet " + vlib.CoqList(allowList) + ")"
+	}
+	c.Case("pubsub", fmt.Sprintf("(%s, %d, %s, %s)", cfgB, idB, fB, vlib.CoqList(e.histB)), map[string]interface{}{"round": round, "receiver": "B", "steps": e.log})
+	c.Case("pubsub", fmt.Sprintf("(%s, %d, AllowAll, %s)", cfgR, idR, vlib.CoqList(e.histR)), map[string]interface{}{"round": round, "receiver": "R", "steps": e.log})
+
+	c.wireCases(e, r, round, ctx, fresh, cids)
+
 	// own republication while the CID is NOT in the filter: stall R's watcher on a full out
 	// slot, hand R a direct announcement (its republication queues up behind the stalled
 	// watcher), un-cache the CID, then drain.  The republication must still be ignored.
@@ -432,14 +464,6 @@ func (c *ctx) pubsubRound(r *vlib.Rand, round int) {
 		}
 	}
 
-	cfgB := fmt.Sprintf("{| cap := 64%%nat; filter_ips := %s |}", vlib.CoqBool(e.filterB))
-	cfgR := fmt.Sprintf("{| cap := 64%%nat; filter_ips := %s |}", vlib.CoqBool(e.filterR))
-	fB := "AllowAll"
-	if e.allowB != nil {
-		fB = "(AllowSet " + vlib.CoqList(allowList) + ")"
-	}
-	c.Case("pubsub", fmt.Sprintf("(%s, %d, %s, %s)", cfgB, idB, fB, vlib.CoqList(e.histB)), map[string]interface{}{"round": round, "receiver": "B", "steps": e.log})
-	c.Case("pubsub", fmt.Sprintf("(%s, %d, AllowAll, %s)", cfgR, idR, vlib.CoqList(e.histR)), map[string]interface{}{"round": round, "receiver": "R", "steps": e.log})
 	if len(e.histB) > 6 {
 		c.Nontrivial(fmt.Sprintf("pubsub-round:%d:%d", round, len(e.histB)))
 	}
